@@ -41,6 +41,7 @@ REQUIRED = {
     "solvers_seen": 6,
     "complex_rates": 20,
     "runs_with_segments": 100,
+    "rhs_forms_seen": 4,
 }
 FIXED = ["euler", "runge-kutta", "implicit", "crank-nicolson", "adams-bashforth"]
 
@@ -183,6 +184,20 @@ def gen_case(rng, solver, backend):
     if isinstance(a, complex):
         u0 = u0 + 1j * np.round(rng.uniform(-1, 1, size=ncell), 3)
     extra = {"explicit_fraction": float(rng.choice([0.0, 0.0, 0.2, 0.5]))} if solver == "crank-nicolson" else {}
+    # how the right-hand side is written: the logging probe class, the same probe returning
+    # its argument itself (a = 1), or the package's expression-based PDE class (bare variable
+    # "c" / "-c", or a general expression with constants and explicit time dependence)
+    form = str(rng.choice(["probe", "identity", "bare", "expr"], p=[0.55, 0.1, 0.15, 0.2]))
+    if form in ("identity", "bare"):
+        sign = 1.0 if form == "identity" or rng.random() < 0.6 else -1.0
+        dts = [d for d in (0.1, 0.25, 1 / 3, 0.7, 1e-2, 0.3, 2.0**-4, 0.05) if d <= zmax]
+        dt = float(rng.choice(dts))
+        a, kind_a, forcing, coeffs = sign, ("pos" if sign > 0 else "neg"), "none", (0, 0, 0, 1)
+        steps = max(1, min(steps, int(3.0 / dt))) if sign > 0 else steps
+        u0 = np.real(u0) + 0.0
+    elif form == "expr" and isinstance(a, complex):
+        form = "probe"
+    extra["rhs_form"] = form
     return {**extra, "solver": solver, "backend": backend, "a": a, "a_kind": kind_a, "dt": dt, "steps": steps, "t0": t0,
             "forcing": forcing, "coeffs": coeffs, "u0": u0}
 
@@ -203,7 +218,15 @@ def implicit_maxerror(c):
 def solve_case(c, tracker=None, adaptive=False, tolerance=None, t_end=None):
     import pde
 
-    eq = probe.make_probe(c["a"], c["coeffs"])
+    form = c.get("rhs_form", "probe")
+    if form == "bare":
+        eq = pde.PDE({"c": "c" if c["a"] > 0 else "-c"})
+    elif form == "expr":
+        c0, c1, c2, w = c["coeffs"]
+        eq = pde.PDE({"c": "a * c + c0 + c1 * t + c2 * sin(w * t)"},
+                     consts={"a": float(c["a"]), "c0": float(c0), "c1": float(c1), "c2": float(c2), "w": float(w)})
+    else:
+        eq = probe.make_probe(c["a"], c["coeffs"], identity=form == "identity")
     grid = pde.UnitGrid([len(c["u0"])])
     state = pde.ScalarField(grid, c["u0"], dtype=complex if np.iscomplexobj(c["u0"]) else float)
     kwargs = {}
@@ -273,7 +296,8 @@ def run_fixed_shard(spec, res: ShardResult, rng):
             ratio = have / np.asarray(c["u0"], dtype=complex)
             if (np.abs(ratio - amp**steps) > rel * 10 * max(abs(amp) ** steps, 1.0) * float(scale.max() / np.abs(c["u0"]).min())).any():
                 res.violation("state is not multiplied by the scheme's amplification factor per step", case, ratio=ratio, expected=amp**steps)
-        if check_stage_log(solver, eq.log, t0, dt, steps, res, case):
+        res.seen("rhs_forms_seen", c["rhs_form"])
+        if hasattr(eq, "log") and check_stage_log(solver, eq.log, t0, dt, steps, res, case):
             res.count("stage_logs_checked")
         t_final = info["controller"]["t_final"]
         t_end = t0 + steps * dt
@@ -293,7 +317,7 @@ def run_fixed_shard(spec, res: ShardResult, rng):
             except Exception as exc:
                 res.violation(f"numpy twin raised {type(exc).__name__}: {exc}", case)
         if case_no < 2:
-            res.sample({**{k: str(v) for k, v in case.items()}, "final": str(have), "model": str(want), "evaluations": len(eq.log)})
+            res.sample({**{k: str(v) for k, v in case.items()}, "final": str(have), "model": str(want), "evaluations": len(getattr(eq, "log", ()))})
 
 
 # --------------------------------------------------------------------------------------
